@@ -32,16 +32,24 @@ def build(rng, n, m, rects, place):
     style = {}          # paragraph text -> heading level (the first paragraph of some cells is a heading)
     for k, ts in enumerate(tx):
         if rng.random() < 0.3: style[ts[0]] = rng.choice([1, 2, 3])
+    fmt = {}            # paragraph text -> run formatting (copies must carry the formatting of the cell they repeat)
+    for ts in tx:
+        for t in ts:
+            if rng.random() < 0.3: fmt[t] = rng.choice([('<w:b/>', 'b'), ('<w:i/>', 'i'), ('<w:strike/>', 's')])
     def para(t):
         ppr = f'<w:pPr><w:pStyle w:val="Heading{style[t]}"/></w:pPr>' if t in style else ''
-        return f'<w:p>{ppr}<w:r><w:t xml:space="preserve">{t}</w:t></w:r></w:p>'
+        rpr = f'<w:rPr>{fmt[t][0]}</w:rPr>' if t in fmt else ''
+        return f'<w:p>{ppr}<w:r>{rpr}<w:t xml:space="preserve">{t}</w:t></w:r></w:p>'
+    def hstr(x):
+        y = f'<{fmt[x][1]}>{x}</{fmt[x][1]}>' if x in fmt else x
+        return f'<h{style[x]}>{y}</h{style[x]}>' if x in style else y
     xml, expected0 = render(rects, n, m, tx, spell, para=para, hidden=lambda k, a: hid.setdefault((k, a), rng.choice(HID))[0])
     def expected(dup, html=False):
         def cell(c):
             out = []
             for x in c:
                 if isinstance(x, tuple): out.append(hid[(x[1], x[2])][1] if html else '')
-                elif html and x in style: out.append(f'<h{style[x]}>{x}</h{style[x]}>')
+                elif html: out.append(hstr(x))
                 else: out.append(x)
             return out
         return [[cell(c) for c in rw] for rw in expected0(dup)]
@@ -73,10 +81,16 @@ def one(ctx, data, expected, attr, meta):
         hit = [t for t in tables if t and t[0] and t[0][0] and first in ''.join(t[0][0])]
         # inside a note the label is prefixed to the first paragraph; strip known prefixes for comparison
         import re as _re
-        def norm(t): return [[[(_re.sub(r'</?h\d>', '', s) if STRIP_H else s) for s in c] for c in rw] for rw in t]
+        def norm(t): return [[[(_re.sub(r'</?(h\d|b|i|s)>', '', s) if STRIP_H else s) for s in c] for c in rw] for rw in t]
         if len(hit) != 1 or norm(hit[0]) != want:
             ctx.fail('a regular source table is not extracted as the n x m grid of its covering cells', case, {'extracted': hit[:2] or tables[:3], 'expected': want}); good = False
         res[(html, dup)] = hit[0] if hit else None
+        if meta.get('place') == 'nested':
+            # the enclosing table is cut in two by the nested one; what follows it is the rest of the enclosing row: the remainder of the
+            # first cell and the second cell, two unmerged cells (they have no cell properties of their own)
+            rest = [t for t in tables if t and t[0] and t[0][0] and any('«9004»' in s_ for s_ in t[0][0])]
+            if len(rest) != 1 or len(rest[0]) != 1 or len(rest[0][0]) != 2 or not any('«9005»' in s_ for s_ in rest[0][0][1]):
+                ctx.fail('the row enclosing a nested table does not continue as its own two cells', case, {'extracted': rest[:1] or tables[:3]}); good = False
     for html in (False, True):
         a, b = res.get((html, True)), res.get((html, False))
         if a is None or b is None: continue
